@@ -891,6 +891,23 @@ impl Property for C05 {
                 predict.sort();
                 predict.dedup();
                 for (e, why) in predict {
+                    // a fresh copy of a record of the instance that the daemon reads at the very instant of the end, or within
+                    // the wake latency after it, is handled before the eviction pass of that iteration and revives the record:
+                    // not judged
+                    {
+                        let mut related: Vec<usize> = vec![pi];
+                        related.extend(srvs.iter().copied());
+                        for &si in &srvs {
+                            if let Some((host, _)) = srv_target(&m.recs[si].rec) {
+                                related.extend(m.find(host, wire::T_A));
+                                related.extend(m.find(host, wire::T_AAAA));
+                            }
+                        }
+                        if related.iter().any(|&i| m.recs[i].arrivals.iter().any(|a| a.ttl > 0 && a.t >= e && a.t <= e + sl)) {
+                            j.abstained += 1;
+                            continue;
+                        }
+                    }
                     // the instance must have been reported before e and not already removed with nothing reported since;
                     // the end of an SRV or address only concerns an instance that had been reported *resolved*
                     let rep_before = if matches!(why, "goodbye" | "ptr-expiry") {
